@@ -68,9 +68,10 @@ class BaseMQTTGateway(Gateway):
         """
         topic_levels = topic.split("/")
         topic_levels = not_prefix = topic_levels[-5:]
-        prefix_end_idx = topic.find("/".join(not_prefix)) - 1
-        prefix = topic[:prefix_end_idx]
-        if prefix != self.tasks.transport.in_prefix:
+        if (
+            len(not_prefix) != 5
+            or topic != f"{self.tasks.transport.in_prefix}/{'/'.join(not_prefix)}"
+        ):
             return None
         if qos and qos > 0:
             ack = "1"
